@@ -327,11 +327,18 @@ def first_diag(log):
 
 def build_and_run(ctx, jobs, merge_into=None, compile_fail_is_violation=True):
     """Compiles and runs all jobs. Harvests VIOL/STAT lines. Returns merged stats."""
-    def comp(j):
-        j.exe = os.path.join(ctx.build, j.name.replace("/", "_"))
-        j.ok, j.log = ctx.compile(j.src, j.exe, j.flags, j.defines)
-        return j
-    ctx.parallel(comp, jobs)
+    # jobs with identical (source, flags, defines) share one binary
+    uniq = {}
+    for j in jobs:
+        uniq.setdefault((j.src, tuple(j.flags), tuple(j.defines)), []).append(j)
+    def comp(group):
+        j0 = group[0]
+        exe = os.path.join(ctx.build, j0.name.replace("/", "_"))
+        ok, log = ctx.compile(j0.src, exe, j0.flags, j0.defines)
+        for j in group:
+            j.exe, j.ok, j.log = exe, ok, log
+        return group
+    ctx.parallel(comp, list(uniq.values()))
     runnable = []
     for j in jobs:
         if not j.ok:
